@@ -244,6 +244,8 @@ def main():
         elif t == "flaky":
             flaky.append(r)
             harness_problems.append("case %s died once (sig %s, phase %s) but passed when re-run alone: inconclusive" % (r.get("case"), r.get("sig"), r.get("phase")))
+        elif t == "slow":
+            stats["cases_completed_on_rerun_after_cpu_limit"] = stats.get("cases_completed_on_rerun_after_cpu_limit", 0) + 1
         elif t == "truncated":
             truncated = True
 
